@@ -8,6 +8,7 @@ import (
 	"os"
 	"os/exec"
 	"path/filepath"
+	"regexp"
 	"sort"
 	"strings"
 	"time"
@@ -197,6 +198,8 @@ func init() {
 	})
 }
 
+var reTagFirstItem = regexp.MustCompile("@tag (\\w+):\"([^\"`]*)\"")
+
 func c06Batch(c *core.Ctx, rng *rand.Rand, batch int, withFree bool) (dir string, names []string, classes map[string]string, before map[string][]byte) {
 	dir = filepath.Join(c.WorkDir, fmt.Sprintf("b%d", batch))
 	os.RemoveAll(dir)
@@ -209,6 +212,12 @@ func c06Batch(c *core.Ctx, rng *rand.Rand, batch int, withFree bool) (dir string
 			cl = "G0"
 		}
 		src, _ := gen.GenGoFile(rng, gen.SrcOpts{Class: cl})
+		if withFree && rng.Intn(6) == 0 {
+			// idempotence only (C07): comments that repeat a key — outside C06's domain (which value
+			// wins is not documented), but a second run must still change nothing
+			src = reTagFirstItem.ReplaceAllString(src, `@tag $1:"$2" $1:"again"`)
+			cl = "G8rep"
+		}
 		name := fmt.Sprintf("f%02d_%s.pb.go", i, strings.ToLower(cl))
 		os.WriteFile(filepath.Join(dir, name), []byte(src), 0o644)
 		names = append(names, name)
@@ -220,7 +229,7 @@ func c06Batch(c *core.Ctx, rng *rand.Rand, batch int, withFree bool) (dir string
 
 func runC06(c *core.Ctx) {
 	res := c.Res
-	res.Assume("domain as stated: backquoted tag literals in conventional key:\"value\" form, values non-empty without double quote, one trailing comment per field, keys \\w+, distinct keys per comment, top-level ungrouped type declarations")
+	res.Assume("domain as stated: backquoted tag literals in conventional key:\"value\" form, values non-empty without double quote, one or more trailing comments on the field (items merged in order), keys \\w+, distinct keys per comment, top-level ungrouped type declarations")
 	res.Assume("go/parser is trusted; spacing inside a rewritten tag literal is not constrained")
 	rng := c.Rng("inject")
 	B := c.Pick(120, 2500)
@@ -378,6 +387,10 @@ func c19Awkward(rng *rand.Rand, kind string) string {
 		return base + "type (\n\tA struct {\n\t\tName string `json:\"name\"` // @tag valid:\"required\"\n\t}\n\tB struct {\n\t\tAge int `json:\"age\"` // @tag valid:\"ge=0\"\n\t}\n)\n\nfunc f() {\n\ttype local struct {\n\t\tX int `json:\"x\"` // @tag valid:\"required\"\n\t}\n\t_ = local{}\n}\n\ntype Al = Inner\n\ntype G[T any] struct {\n\tV T `json:\"v\"` // @tag valid:\"required\"\n}\n\n" + good
 	case "backquote-value":
 		v := []string{"a`b", "`", "re='^`+$'", "x` json:`"}[rng.Intn(4)]
+		if rng.Intn(2) == 0 {
+			// the unprocessable field comes AFTER ordinary annotated fields (areas are applied from the end)
+			return base + "type A struct {\n\tFirst string `json:\"first,omitempty\"` // @tag valid:\"required,to=1~30\"\n\tAge  int32 `json:\"age\"` // @tag valid:\"ge=0\"\n\tName string `json:\"name\"` // @tag valid:\"" + v + "\"\n\tLast string `json:\"last\"` // @tag valid:\"le=9\"\n}\n\n" + good
+		}
 		return base + "type A struct {\n\tName string `json:\"name\"` // @tag valid:\"" + v + "\"\n\tAge  int32 `json:\"age\"` // @tag valid:\"ge=0\"\n}\n\n" + good
 	case "interpreted-literal":
 		// also combined with comments that mention @tag but carry no key:"value" pair
